@@ -18,7 +18,8 @@ Known(e) == e.fn \in (StrCopyFns \ FldFns)
 Func(fn) == "C06"
 
 ProducesString(fn) == fn \in (StrCopyFns \ {"strcpyfld_s", "strcpyfldin_s"})
-NoOpByDoc(e) == (e.fn \in {"strcpy_s", "wcscpy_s"} /\ e.d = e.s)
+NoOpByDoc(e) == \/ (e.fn \in {"strcpy_s", "wcscpy_s"} /\ e.d = e.s)
+                \/ (e.fn \in StpFns /\ e.flags = 1)   \* null status out-parameter: nothing is attempted (DESIGN 5a.13)
 
 C03_Direct(e) ==
   (ProducesString(e.fn) /\ DestUsable(e) /\ ~NoOpByDoc(e) /\ e.fault = "none")
